@@ -1,6 +1,5 @@
 import DFV.JsonField
 import DFV.Model.C19
-import DFV.Drv.C11
 namespace DFV.Drv
 open Lean DFV DFV.C19
 
@@ -35,6 +34,16 @@ def bpJ (r : BpResult) : Json :=
   Json.mkObj [("fint", ratsJ r.fint), ("number", intsJ r.number), ("total", .num (JsonNumber.fromInt r.total)),
     ("hh", .num (JsonNumber.fromInt r.hh)), ("tt", .num (JsonNumber.fromInt r.tt)),
     ("pattern", listJ (fun (p : Int × Nat) => Json.arr #[.num (JsonNumber.fromInt p.1), .num (JsonNumber.fromNat p.2)]) r.pattern)]
+
+/-- a root-of-unity polynomial with like monomials collected, exponents reduced mod `ns`
+(`C11.Poly.dense`): the list of `[flat exponent index (C order), re, im]` with a non-zero coefficient -/
+def polyJ (ns : List Nat) (p : C11.Poly) : Json :=
+  let acc := (C11.Poly.dense ns p).toArray
+  let out := (List.range acc.size).filterMap fun k =>
+    let c := acc.getD k (0, 0)
+    if c.1 = 0 ∧ c.2 = 0 then none
+    else some (Json.arr #[Json.num (JsonNumber.fromNat k), ratToJson c.1, ratToJson c.2])
+  .arr out.toArray
 
 end C19J
 open C19J
@@ -122,7 +131,7 @@ def c19 (op : String) (j : Json) : Option (R Json) :=
       | .error e => pure (errJ e)
       | .ok (mesh, arr) =>
         pure (Json.mkObj [("ok", Json.mkObj [("mesh", meshToJson mesh), ("ns", natsJ shape),
-          ("coef", listJ (fun i => listJ (denseJ shape) (arr.get i)) (indicesC mesh.n))])])
+          ("coef", listJ (fun i => listJ (polyJ shape) (arr.get i)) (indicesC mesh.n))])])
   | "sqrt" => some do
       let q ← ratOfJson (← fld j "q")
       pure (Json.mkObj [("ok", ratToJson (ratSqrt q))])
